@@ -61,10 +61,31 @@ def r_hist(A, ctx, scope, rule="R-HIST"):
             skip = cfg.paths_exist(sf.loop_iter_edge, hdr, avoiding=app) if app else True
             # at most once: no append reaches an append again without passing the header
             twice = any(cfg.paths_exist(e, e2, avoiding=[hdr]) for e in app for e2 in app)
-            ok = bool(app) and not inner and not skip and not twice
+            # an iteration that changed the iterate and then leaves the loop (tolerance
+            # exit) must have recorded its objective before leaving
+            worked = False
+            mutw = set(_mutation_nodes(sf, flow))
+            state_ = {x for x in (sf.W, sf.XW) if x}
+            mutw = {m for m in mutw if _mutation_nodes(sf, flow)[m] & state_}
+            for nd in cfg.stmts():
+                if nd.kind == "stmt" and isinstance(nd.ast, ast.Assign) and sf.loop_header in nd.loops \
+                        and any(isinstance(t, ast.Name) and t.id == sf.W for t in nd.ast.targets):
+                    mutw.add(nd.id)
+            mutw = {m for m in mutw if sf.loop_header in cfg.nodes[m].loops}
+            exits = [nd.id for nd in cfg.stmts() if isinstance(nd.ast, (ast.Break, ast.Return))
+                     and sf.in_budget_loop_directly(nd.id)]
+            for m in mutw:
+                for ex in exits:
+                    if cfg.paths_exist(sf.loop_iter_edge, m, avoiding=app + [hdr]) and \
+                            cfg.paths_exist(m, ex, avoiding=app + [hdr]):
+                        worked = True
+            ok = bool(app) and not inner and not skip and not twice and not worked
             why = ("no append" if not app else "append inside an inner loop" if inner else
                    "an iteration can complete without recording its objective" if skip else
-                   "an iteration can record two entries")
+                   "an iteration can record two entries" if twice else
+                   "an iteration that updated the iterate can leave the loop (tolerance exit) "
+                   "before its objective is recorded: the history is one entry short and its "
+                   "last entry is not the objective of the returned point")
             ctx.ob(rule, f"{f.fq}::count::{H}", ok,
                    what=f"objective history `{H}`: {why}", loc=loc(f, hdefs[0].ast))
         else:
